@@ -2,6 +2,7 @@ package drive
 
 import (
 	"fmt"
+	"github.com/gofrs/uuid/v5"
 
 	"github.com/ostafen/clover/v2/document"
 	"github.com/ostafen/clover/v2/query"
@@ -138,7 +139,14 @@ func (d *seqRun) newSchema() *gen.Schema {
 	return s
 }
 
-var malformedIDs = []any{"not-a-uuid", "12345678-1234-1234-1234-12345678901", "g2345678-1234-1234-1234-123456789012", int64(5), true, "12345678-1234-1234-1234-1234567890123", " 2345678-1234-1234-1234-123456789012"}
+// idStringer prints as a canonical UUID but is not a string: as an _id it is malformed like any other non-string.
+type idStringer struct{ s string }
+
+func (i idStringer) String() string { return i.s }
+
+var someUUID = uuid.Must(uuid.FromString("0a1b2c3d-4e5f-4a6b-8c7d-9e0f1a2b3c4d"))
+
+var malformedIDs = []any{someUUID, &someUUID, idStringer{"0a1b2c3d-4e5f-4a6b-8c7d-9e0f1a2b3c4e"}, []byte("0a1b2c3d-4e5f-4a6b-8c7d-9e0f1a2b3c4f"), "not-a-uuid", "12345678-1234-1234-1234-12345678901", "g2345678-1234-1234-1234-123456789012", int64(5), true, "12345678-1234-1234-1234-1234567890123", " 2345678-1234-1234-1234-123456789012"}
 
 func (d *seqRun) newDocs(coll string, n int) []map[string]any {
 	sch := d.schemaOf(coll)
@@ -225,7 +233,12 @@ func (d *seqRun) pickUpd(coll string, bulkFunc bool) *Upd {
 		u.Name = "to_nil"
 		return u
 	}
-	if d.r.P(3) {
+	if bulkFunc && d.r.P(12) {
+		// one call that removes some of the selected documents and rewrites the others
+		u.DeleteSome = true
+		u.Name = "delete_some"
+	}
+	if d.r.P(3) && !u.DeleteSome {
 		// an update that changes nothing: an empty (or nil) map, an updater returning its argument as it is
 		u.Name = "no_change"
 		u.NilMap = d.r.Bool()
